@@ -41,7 +41,7 @@ def walk(fn_full, parse, st0, succ, rate_unit, horizon, max_exp, max_leaves=6000
         counters["events"] += len(ev)
         return False
 
-    leaves = explore(fn_full, max_exp=max_exp, on_leaf=on_leaf, max_leaves=max_leaves)
+    leaves = explore(fn_full, max_exp=max_exp, on_leaf=on_leaf, max_leaves=max_leaves, deep_is_error=(max_exp is not None))
     stats = {"nodes": 0}
     if not isinstance(leaves, Incomplete):
         for r in recs:
